@@ -8,9 +8,6 @@ Open Scope N_scope.
 
 (** ------------------------------------------------------------------ bytes at a position --- *)
 
-Definition at_ (M : list N) (p : N) (x : list N) : Prop :=
-  exists pre post, M = pre ++ x ++ post /\ blen pre = p.
-
 Lemma at_app_l M p x y : at_ M p (x ++ y) -> at_ M p x.
 Proof. intros (pre & post & -> & L). exists pre, (y ++ post). now rewrite <- app_assoc. Qed.
 
@@ -50,18 +47,6 @@ Proof.
 Qed.
 
 (** ------------------------------------------------------------------ names on the wire --- *)
-
-(** [nbe M b p ls q]: starting at offset [p] of [M] one reads the labels [ls] in RFC 1035 form
-    (labels of 1..63 bytes, a final zero byte or a compression pointer to an earlier name whose own
-    pointers stay below its start); every pointer met targets an offset below [b]; [q] is where
-    the reader continues afterwards (after the zero byte, or after the first pointer). *)
-Inductive nbe (M : list N) : N -> N -> list label -> N -> Prop :=
-| nbe_end b p : at_ M p [0] -> nbe M b p [] (p + 1)
-| nbe_label b p l ls q :
-    1 <= blen l <= 63 -> at_ M p (blen l :: l) -> nbe M b (p + 1 + blen l) ls q -> nbe M b p (l :: ls) q
-| nbe_ptr b p t ls q' :
-    ls <> [] -> t < 16384 -> t < b -> at_ M p (to_be 2 (N.lor 49152 t)) -> nbe M t t ls q' ->
-    nbe M b p ls (p + 2).
 
 Lemma nbe_bound_mono M b p ls q : nbe M b p ls q -> forall b', b <= b' -> nbe M b' p ls q.
 Proof.
@@ -142,9 +127,6 @@ Proof.
 Qed.
 
 (** ------------------------------------------------------------------ the compression dictionary --- *)
-
-Definition dict_inv (M : list N) (pos : N) (d : dict) : Prop :=
-  forall k off, In (k, off) d -> off < 16384 /\ off < pos /\ k <> [] /\ exists q, nbe M off off k q.
 
 Lemma dict_inv_nil M pos : dict_inv M pos [].
 Proof. intros k off []. Qed.
